@@ -159,6 +159,14 @@ CLAIMED = {
     },
 }
 
+CLAIMED["C18"] = {
+    "engine": "tricks",
+    "design_ref": "DESIGN.md §7 C18, §13",
+    "text": "Debouncer.tla (condition variable, predicate wait, interval timer on a virtual clock, stop), AutoRestart.tla (restart from the dispatcher / debouncer / process-watcher threads, stop(), the two flags under _stopping_lock, the restart lock, a process table with children that exit by themselves or ignore the stop signal) and ShellCommand.tla (drop_during_process / wait_for_process) are implementation-shaped and model-checked by TLC (safety + liveness under fairness); the repaired defects are switches (FixD8, FixLock) whose negative configurations must be refuted. The real EventDebouncer, AutoRestartTrick, ShellCommandTrick and ProcessWatcher run under the deterministic scheduler with a simulated process table behind subprocess.Popen / os.kill (sequential programs, bounded-preemption DFS on event x self-exit x stop races, random + PCT schedules) and TLC validates every call/return/spawn/kill/callback/tick trace against TricksTrace.tla (batches delivered once, in arrival order, after a quiet interval; at most one child; every spawn paid for by a trigger; nothing alive after stop() returned; helper threads gone; no exception).",
+    "note": "Trusted: detsched shims incl. the fake process table (children are records with an exit plan; signals per kill_after semantics); time is virtual. Bounded: <=3 events, <=2 self-exits, one stop(), preemption bound 0-2, at most 1200 executions per DFS program in quick. watchmedo's command-line glue and YAML loading are out of scope.",
+    "technique": "TLA+ model checking (TLC, safety + liveness) + trace validation of the real tricks under a deterministic scheduler with a simulated process table",
+}
+
 NOT_YET = "check not built yet (in progress, see DESIGN.md §12)"
 
 m = {
